@@ -6,6 +6,8 @@ import GocoinV.Proofs.C19Reopen2
 namespace GocoinV.Proofs.C19
 open GocoinV GocoinV.Qdb GocoinV.QdbSpec
 
+variable {eg : Bool}
+
 /-- the abstract map as a function key ↦ value -/
 def vals (db : DB) (k : Key) : Option Bytes := mget (absv db) k
 
@@ -24,14 +26,14 @@ def vstep (m : Key → Option Bytes) : Op → Key → Option Bytes
 def vrun (m : Key → Option Bytes) (ops : List Op) : Key → Option Bytes := ops.foldl vstep m
 
 /-- operations of the extended sub-language: the cached ones, and Close + NewDBExt(non-volatile, LoadData) -/
-def OpOK2 : Op → Prop
+def OpOK2 (e : Bool) : Op → Prop
   | .reopen vol load _ => vol = false ∧ load = true
-  | op => OpOK op
+  | op => OpOK eg op
 
 /-- side conditions, extended to reopen: sizes as for sync, and data-file sequence numbers do not wrap -/
 def OpFits2 (db : DB) : Op → Prop
   | .reopen _ _ opts => SizeOK db ∧
-      (openIndex { fs := (sync db).fs, volatile := false, opts := opts }).maxSeq + 1 < 2^32
+      (openIndex { fs := (sync db).fs, volatile := false, opts := opts, eager := db.eager }).maxSeq + 1 < 2^32
   | op => OpFits db op
 
 def RunFits2 : DB → List Op → Prop
@@ -45,7 +47,7 @@ theorem inv3_effs (o : DB) (h : Inv3 o) (e : List (String × Effect)) : Inv3 { o
 
 /-- Close + NewDBExt(non-volatile, LoadData): invariants again, same values -/
 theorem reopen_inv3 (db : DB) (h : Inv3 db) (opts : Opts) (hs : SizeOK db)
-    (hmax : (openIndex { fs := (sync db).fs, volatile := false, opts := opts }).maxSeq + 1 < 2^32) :
+    (hmax : (openIndex { fs := (sync db).fs, volatile := false, opts := opts, eager := db.eager }).maxSeq + 1 < 2^32) :
     Inv3 (step db (.reopen false true opts)) ∧ ∀ k, vals (step db (.reopen false true opts)) k = vals db k := by
   obtain ⟨sinv, sabs, spe, _⟩ := sync_inv db h.inv hs
   have hclose : (close db).failed = none ∧ (close db).fs = (sync db).fs := by
@@ -54,21 +56,21 @@ theorem reopen_inv3 (db : DB) (h : Inv3 db) (opts : Opts) (hs : SizeOK db)
     simp only [h.inv.nv, Bool.false_eq_true, ↓reduceIte, sinv.cached.1]
     exact ⟨trivial, trivial⟩
   obtain ⟨E, hE, hlog⟩ := sinv.logst
-  have hR : DirReadable (sync db).fs := fun kr hkr => ⟨sinv.dflags kr hkr, sinv.dreads kr hkr⟩
+  have hR : DirReadable eg (sync db).fs := fun kr hkr => ⟨sinv.dflags kr hkr, sinv.dreads kr hkr⟩
   have h3 := open_inv3 (sync db).fs opts E hE (by rw [sinv.ver]; exact hlog) (by rw [sinv.ver]; exact sinv.verlt) hR hmax
   obtain ⟨_, o2⟩ := open_of_inv (sync db) sinv spe false opts
   have hstep : step db (.reopen false true opts) =
-      { openDB (sync db).fs false true opts with
-        effs := (close db).effs ++ (openDB (sync db).fs false true opts).effs } := by
+      { openDB (sync db).fs false true opts eg with
+        effs := (close db).effs ++ (openDB (sync db).fs false true opts eg).effs } := by
     show (match (close db).failed with
       | some _ => close db
-      | none => { openDB (close db).fs false true opts with
-                  effs := (close db).effs ++ (openDB (close db).fs false true opts).effs }) = _
+      | none => { openDB (close db).fs false true opts eg with
+                  effs := (close db).effs ++ (openDB (close db).fs false true opts eg).effs }) = _
     rw [hclose.1, hclose.2]
   rw [hstep]
   refine ⟨inv3_effs _ h3 _, fun k => ?_⟩
   rw [vals_eq, vals_eq]
-  show (ilookup k (openDB (sync db).fs false true opts).index).map valOf = _
+  show (ilookup k (openDB (sync db).fs false true opts eg).index).map valOf = _
   rw [o2 k, ← vals_eq, ← vals_eq]
   unfold vals
   rw [sabs]
@@ -135,7 +137,7 @@ theorem keys_absv (db : DB) : Keys (absv db) = Keys db.index := by
   simp [Keys, absv, absE, List.map_map]
 
 /-- one step of the extended sub-language: invariants, and the values follow the in-memory map -/
-theorem step_inv3' (db : DB) (h : Inv3 db) (op : Op) (ok : OpOK2 op) (fits : OpFits2 db op) :
+theorem step_inv3' (db : DB) (h : Inv3 db) (op : Op) (ok : OpOK2 eg op) (fits : OpFits2 db op) :
     Inv3 (step db op) ∧ ∀ k, vals (step db op) k = vstep (vals db) op k := by
   cases op with
   | reopen vol load opts =>
@@ -187,7 +189,7 @@ theorem step_inv3' (db : DB) (h : Inv3 db) (op : Op) (ok : OpOK2 op) (fits : OpF
     rw [(step_cached db (.noSync) h.inv.cached ok).2]
     rfl
 
-theorem run_inv3' (ops : List Op) (db : DB) (h : Inv3 db) (ok : ∀ op ∈ ops, OpOK2 op) (fits : RunFits2 db ops) :
+theorem run_inv3' (ops : List Op) (db : DB) (h : Inv3 db) (ok : ∀ op ∈ ops, OpOK2 eg op) (fits : RunFits2 db ops) :
     Inv3 (run db ops) ∧ ∀ k, vals (run db ops) k = vrun (vals db) ops k := by
   induction ops generalizing db with
   | nil => exact ⟨h, fun _ => rfl⟩
